@@ -16,7 +16,7 @@ ASSUMPTIONS = ["reference evaluator celmodel/refeval.py implements the semantics
 
 def units(tier, seed):
     n = 16 if tier == 'quick' else 320
-    return [('typed', i) for i in range(n)] + [('concat', i) for i in range(2 if tier == 'quick' else 16)]
+    return [('typed', i) for i in range(n)] + [('concat', i) for i in range(2 if tier == 'quick' else 16)] + [('crossnum',)]
 
 
 def concat_programs(rng):
@@ -104,6 +104,38 @@ def judge(res, case, rec, outs, complete, e, tag="C03"):
 def run_unit(unit, drv, res, seed, tier):
     rng = rng_for(seed, 'C03', *unit)
     cases, meta = [], []
+    if unit[0] == 'crossnum':
+        # numbers of different kinds at the edges of exactness, in every relation and inside small programs
+        from celmodel.values import I, U, D, I64_MAX, I64_MIN, U64_MAX
+        ints = [I(v) for v in (0, 1, -1, (1 << 53) - 1, 1 << 53, (1 << 53) + 1, -(1 << 53) - 1, I64_MAX, I64_MAX - 1, I64_MIN, I64_MIN + 1)]
+        uints = [U(v) for v in (0, 1, (1 << 53) + 1, I64_MAX, I64_MAX + 1, U64_MAX, U64_MAX - 1)]
+        dbls = [D(v) for v in (0.0, -0.0, 1.0, 0.5, -1.0, float(1 << 53), float((1 << 53) + 2), 9223372036854775808.0, -9223372036854775808.0,
+                               9223372036854774784.0, 18446744073709551616.0, 18446744073709549568.0, 1e300, -1e300)]
+        groups = [(ints, dbls), (uints, dbls), (ints, uints)]
+        for ga, gb in groups:
+            for a in ga:
+                for b in gb:
+                    for x, y in ((a, b), (b, a)):
+                        for rel in ('<', '<=', '>', '>=', '==', '!='):
+                            e = ('bin', rel, ('id', 'a'), ('id', 'b'))
+                            ctx = [("a", x), ("b", y)]
+                            outs, complete = all_outcomes(e, dict(ctx))
+                            cases.append(exec_case(len(cases), render_min(e), ctx))
+                            meta.append((e, outs, complete, 'min'))
+                        for e in (('cond', ('bin', '<', ('id', 'a'), ('id', 'b')), ('id', 'a'), ('id', 'b')),
+                                  ('bin', 'in', ('id', 'a'), ('list', [('id', 'b')]))):
+                            ctx = [("a", x), ("b", y)]
+                            outs, complete = all_outcomes(e, dict(ctx))
+                            cases.append(exec_case(len(cases), render_min(e), ctx))
+                            meta.append((e, outs, complete, 'min'))
+        out = drv.run(cases, "crossnum")
+        for c, r, (e, outs, complete, form) in zip(cases, out, meta):
+            res.evaluations += 1
+            judge(res, c, r, outs, complete, e)
+            res.nt(c["src"] + "|" + repr(c.get("vars")))
+            res.count("family:crossnum")
+        res.exhaustive_done['cross-kind-numeric-relations'] = True
+        return
     if unit[0] == 'concat':
         for e, ctx in concat_programs(rng):
             outs, complete = all_outcomes(e, dict(ctx))
